@@ -20,7 +20,7 @@ class C18(BaseCheck):
   REQUIRED_ANCHORS = ANCHORS
   REQUIRED_CLASSES = ('counter', 'gauge', 'percentile:below-reservoir', 'percentile:above-reservoir',
                       'full-stack', 'percentile:busy-after-full', 'zero-increment', 'fractional-increment',
-                      'overlapping-measure')
+                      'overlapping-measure', 'gauge:persistent-objects')
   ASSUMPTIONS = ('percentile bounds allow 1e-9 relative slack for the linear interpolation',)
   QUICK_CASES = 720
   THOROUGH_CASES = 40000
@@ -58,6 +58,7 @@ class C18(BaseCheck):
     used = {}         # metric -> set(tuples)
     fresh_uses = {}
     kinds_used = set()
+    persistent = {}
     nops = rng.choice([20, 60, 150, 400])
     for _ in range(nops):
       t = rng.choice(tuples)
@@ -95,8 +96,18 @@ class C18(BaseCheck):
         used.setdefault('agg', set()).add(t)
         kinds_used.add('timer')
       else:
-        val = rng.randint(-5, 100)
-        V(src).g(val)
+        val = rng.choice([rng.randint(-5, 100), rng.randint(0, 3)])    # small values repeat often
+        if rng.random() < 0.6:
+          # long-lived metric objects (two per tuple, as two pools/balancers for one endpoint have)
+          which = (t, rng.randint(0, 1))
+          if which not in persistent:
+            persistent[which] = V(src)
+          persistent[which].g(val)
+          classes.add('gauge:persistent-objects')
+        elif rng.random() < 0.5:
+          V.g(src, val)
+        else:
+          V(src).g(val)
         model_gauge[t] = val
         used.setdefault('g', set()).add(t)
         kinds_used.add('gauge')
